@@ -46,8 +46,8 @@ LowHost(h)   == [i \in 1..Len(h) |-> LowLabel(h[i])]
 HasUpper(h)  == \E i \in 1..Len(h) : \E j \in 1..Len(h[i]) : h[i][j] \in Upper
 
 (* lower-case vocabulary; every ASCII-case variant of every label is enumerated *)
-Vocab == {<<"a">>, <<"e">>, <<"c", "o">>, <<"1">>, <<"2", "5", "5">>}
-           \cup (IF Depth > 0 THEN {<<"y">>, <<"2", "5", "6">>, <<"a", "-", "1">>} ELSE {})
+Vocab == {<<"a">>, <<"e">>, <<"c", "o">>, <<"1">>}
+           \cup (IF Depth > 0 THEN {<<"2", "5", "5">>, <<"y">>, <<"2", "5", "6">>, <<"a", "-", "1">>} ELSE {})
 VariantsOfChar(ch) == IF ch \in Lowers THEN {ch, UpperOf[ch]} ELSE {ch}
 RECURSIVE CaseVariants(_)
 CaseVariants(l)    == IF l = <<>> THEN {<<>>}
@@ -156,11 +156,12 @@ RewriteImpl(in, peer, port, hostHeader, v) ==
   IN IF v = "repaired" THEN Del(o4, {XFPort}) ELSE o4   \* deviation: other X-Forwarded-* are not stripped
 
 RewriteCases == [proto : {"1.1", "2", "3"}, port : {443, 8443}, peer : {"203.0.113.7", "2001:db8::7"},
-                 set : SUBSET Judged, dup : BOOLEAN, hp : {"none", "gw", "other"}]
+                 set : SUBSET Judged, dup : BOOLEAN, hp : {"none", "gw", "other"},
+                 method : IF Depth > 0 THEN {"GET", "POST", "DELETE"} ELSE {"GET"}]
 RewriteCase(x) ==      \* what the driver needs
   LET in == InHeaders(x.set, x.dup)
       s  == SeqOf(JudgedSeq, x.set) IN
-  [proto |-> x.proto, port |-> x.port, peer |-> x.peer, host |-> TunnelHost, root |-> RewriteRoot,
+  [proto |-> x.proto, port |-> x.port, peer |-> x.peer, host |-> TunnelHost, root |-> RewriteRoot, method |-> x.method,
    hostHeader |-> HostHeader(x.hp, x.port), judged |-> JudgedSeq,
    hdrs |-> [i \in 1..Len(s) |-> [n |-> s[i], v |-> in[s[i]]]]]
 RewriteExpected(x) ==
